@@ -45,6 +45,10 @@ func edgeDominates(from, to, b *ssa.BasicBlock) bool {
 // guardsOf returns the branch conditions whose edge dominates block b
 // (walking the dominator tree upwards).
 func guardsOf(b *ssa.BasicBlock) []Guard {
+	return expandGuards(guardsOfRaw(b))
+}
+
+func guardsOfRaw(b *ssa.BasicBlock) []Guard {
 	var gs []Guard
 	for a := b; a != nil; a = a.Idom() {
 		gs = append(gs, mergedEdgeGuards(a)...)
@@ -197,12 +201,66 @@ func mergedEdgeGuards(a *ssa.BasicBlock) []Guard {
 	return out
 }
 
+// expandGuards adds the facts implied by guards whose condition is a short-circuit value: go/ssa evaluates the
+// case expressions of a tagless switch (and any `x := a && b`) as values, so `case p.canFast && amSeed(p):`
+// branches on `true == phi(false [from !canFast], amSeed(p))`. If such a phi has the tested value, control came
+// through the one edge that does not carry the opposite constant: the guards of that edge hold, and so does the
+// edge's own value.
+func expandGuards(gs []Guard) []Guard {
+	out := append([]Guard{}, gs...)
+	seen := map[ssa.Value]bool{}
+	for i := 0; i < len(out) && i < 64; i++ {
+		g := out[i].norm()
+		ph, ok := g.Cond.(*ssa.Phi)
+		if !ok || seen[ph] {
+			continue
+		}
+		seen[ph] = true
+		cand := -1
+		n := 0
+		for k, e := range ph.Edges {
+			if b, isb := constBool(e); isb && b != g.Pol {
+				continue // this edge carries the opposite constant: not the way we came
+			}
+			cand = k
+			n++
+		}
+		if n != 1 || cand >= len(ph.Block().Preds) {
+			continue
+		}
+		pred := ph.Block().Preds[cand]
+		if _, isC := ph.Edges[cand].(*ssa.Const); !isC {
+			out = append(out, Guard{Cond: ph.Edges[cand], Pol: g.Pol, If: out[i].If})
+		}
+		out = append(out, guardsOfRaw(pred)...)
+		out = append(out, edgeGuard(pred, ph.Block())...)
+	}
+	return out
+}
+
 // guardsAt returns the guards for the block of instr.
 func guardsAt(instr ssa.Instruction) []Guard { return guardsOf(instr.Block()) }
 
 // normalise strips `!` from a guard, flipping polarity.
 func (g Guard) norm() Guard {
 	for {
+		if bo, ok := g.Cond.(*ssa.BinOp); ok && (bo.Op == token.EQL || bo.Op == token.NEQ) {
+			// true == x, x != false, … (tagless switch cases)
+			if b, isb := constBool(bo.X); isb {
+				if _, isC := bo.X.(*ssa.Const); isC {
+					g.Cond = bo.Y
+					g.Pol = g.Pol == (b == (bo.Op == token.EQL))
+					continue
+				}
+			}
+			if b, isb := constBool(bo.Y); isb {
+				if _, isC := bo.Y.(*ssa.Const); isC {
+					g.Cond = bo.X
+					g.Pol = g.Pol == (b == (bo.Op == token.EQL))
+					continue
+				}
+			}
+		}
 		u, ok := g.Cond.(*ssa.UnOp)
 		if !ok || u.Op != token.NOT {
 			return g
@@ -411,6 +469,30 @@ func (p *Prog) callSitesOf(target *ssa.Function) (calls []ssa.CallInstruction, e
 								escapes = append(escapes, in)
 							}
 						}
+						continue
+					}
+				}
+				if mc, ok := in.(*ssa.MakeClosure); ok && mc.Fn == ssa.Value(target) {
+					// a func literal bound to a local and only ever called (f := func(){…}; f(); f()):
+					// its call sites are found above (StaticCallee sees through the closure value)
+					onlyCalled := true
+					for _, ref := range *mc.Referrers() {
+						switch x := ref.(type) {
+						case *ssa.DebugRef:
+						case ssa.CallInstruction:
+							if x.Common().Value != ssa.Value(mc) {
+								onlyCalled = false
+							}
+							for _, a := range x.Common().Args {
+								if a == ssa.Value(mc) {
+									onlyCalled = false
+								}
+							}
+						default:
+							onlyCalled = false
+						}
+					}
+					if onlyCalled {
 						continue
 					}
 				}
